@@ -54,6 +54,12 @@ Proof. unfold bytes_of. rewrite map_length. induction s; cbn; auto. Qed.
 Lemma byte_of_range a : 0 <= byte_of a < 256.
 Proof. unfold byte_of. pose proof (N_ascii_bounded a). lia. Qed.
 
+Definition str_of_bytes (l : list Z) : string := string_of_list_ascii (map (fun z => ascii_of_N (Z.to_N z)) l).
+Lemma str_of_bytes_of s : str_of_bytes (bytes_of s) = s.
+Proof. unfold str_of_bytes, bytes_of. rewrite map_map.
+  rewrite (map_ext _ (fun a => a)); [now rewrite map_id, string_of_list_ascii_of_string|].
+  intros a. unfold byte_of. now rewrite N2Z.id, ascii_N_embedding. Qed.
+
 (* binary.Write(LittleEndian, x) for a k-byte integer kind: two's complement, least significant byte first
    (n mod 256 is non-negative and n / 256 is floor division, so negative n yields its two's complement) *)
 Fixpoint le_bytes (k : nat) (n : Z) : list Z :=
